@@ -1,23 +1,16 @@
 #!/bin/bash
-# verify_mutant.sh <worktree> <outdir>: confirm (1) compiles + whole suite passes with the patch, (2) the demonstration
-# fails with the patch and passes without it.  Prints a summary line.
+# verify_mutant.sh <worktree> <outdir>: from a CLEAN worktree confirm (1) patch applies, compiles, whole suite passes with it,
+# (2) the demonstration fails with the patch and passes without it.  (No git stash: the stash is shared by all worktrees.)
 wt=$1; out=$2
 cd "$wt" || exit 2
 export CARGO_TARGET_DIR=$wt/target
-git diff > /tmp/vm_patch.$$; if ! diff -q /tmp/vm_patch.$$ "$out/patch.diff" >/dev/null; then echo "NOTE: worktree diff differs from patch.diff"; fi
+git checkout -q -- . ; rm -f tests/zz_demo.rs
+git apply "$out/patch.diff" || { echo "PATCH DOES NOT APPLY"; exit 1; }
 suite=$(cargo test --offline 2>&1 | grep -E "^test result" | awk '{p+=$4; f+=$6} END {print p" passed "f" failed"}')
-demo=$(ls "$out"/demo*.rs | head -1)
-kind=integration
-if grep -q "super::\*\|State::new" "$demo"; then kind=unit; fi
-if [ $kind = integration ]; then
-  cp "$demo" tests/zz_demo.rs
-  with=$(cargo test --offline --test zz_demo 2>&1 | grep -E "^test result" | head -1)
-  git stash -q -- src
-  without=$(cargo test --offline --test zz_demo 2>&1 | grep -E "^test result" | head -1)
-  git stash pop -q
-  rm -f tests/zz_demo.rs
-else
-  with="(unit-test demo: see README)"; without=""
-fi
-echo "SUITE: $suite | DEMO with patch: $with | without: $without"
-rm -f /tmp/vm_patch.$$
+demo=$(ls "$out"/demo*.rs | grep -v unit | head -1)
+cp "$demo" tests/zz_demo.rs
+with=$(cargo test --offline --test zz_demo 2>&1 | grep -E "^test result|error\[|signal|abort" | head -1)
+git apply -R "$out/patch.diff"
+without=$(cargo test --offline --test zz_demo 2>&1 | grep -E "^test result|error\[|signal|abort" | head -1)
+rm -f tests/zz_demo.rs
+echo "SUITE(with patch): $suite | DEMO with: $with | without: $without"
